@@ -1023,7 +1023,16 @@ def gen_C10(rng, tier):
             # plateaus: sometimes the reading is EXACTLY the previous one (a sensor at rest) although time has moved on
             if st["last"] is not None and r.random() < 0.1:
                 return st["last"]
-            st["last"] = q(f2h(st.get("scale", 1.0) * (a * x * x + b * math.sin(x) + c + r.uniform(-0.5, 0.5))), mm, s)
+            # zero-area trapezoids and zero differences (round-10 seeded defect C10_r10m1: "a trapezoid of zero area changes nothing, skip
+            # the bookkeeping"): an exact sign reversal (v, -v), a signal at rest at exactly +0.0 / -0.0 for several samples
+            u = r.random()
+            if st.get("lastv") is not None and u < 0.06:
+                st["lastv"] = -st["lastv"]
+            elif u < 0.12 or (st.get("lastv") == 0.0 and u < 0.5):
+                st["lastv"] = r.choice([0.0, 0.0, -0.0])
+            else:
+                st["lastv"] = h2f(f2h(st.get("scale", 1.0) * (a * x * x + b * math.sin(x) + c + r.uniform(-0.5, 0.5))))
+            st["last"] = q(f2h(st["lastv"]), mm, s)
             return st["last"]
         return mk
     for name, (mm, s) in (("int", (None, None)), ("drv", (None, None)), ("a2s", (1, -2)), ("v2s", (1, -1)), ("p2s", (1, 0))):
